@@ -12,6 +12,8 @@ def bview (b : Bundler) : BV :=
 
 def bvs (s : EState) : List BV := s.bundlers.map (fun kb => bview kb.2)
 
+def keysOf (s : EState) : List String := s.bundlers.map (fun kb => kb.1)
+
 def subsOf (s : EState) : String → List (Nat × String) := fun n => (devOf s n).subs
 
 structure DV where
@@ -19,27 +21,30 @@ structure DV where
   nextRun : Nat
   subs : String → List (Nat × String)
   bs : List BV
+  keys : List String
   pc : PC
 
-def dv (s : EState) : DV := { docs := s.docs, nextRun := s.nextRun, subs := subsOf s, bs := bvs s, pc := s.pc }
+def dv (s : EState) : DV :=
+  { docs := s.docs, nextRun := s.nextRun, subs := subsOf s, bs := bvs s, keys := keysOf s, pc := s.pc }
 
 /-- the invariant of C01 (it does not look at the program counter) -/
-def InvV (v : DV) : Prop := DocInv v.docs v.nextRun v.subs v.bs ∧ ∀ x ∈ v.bs, x.runOpen = true
+def InvV (v : DV) : Prop :=
+  DocInv v.docs v.nextRun v.subs v.bs ∧ (∀ x ∈ v.bs, x.runOpen = true) ∧ v.keys.Pairwise (· ≠ ·)
 
 def Inv (s : EState) : Prop := InvV (dv s)
 
 theorem dv_ext {s s' : EState} (h1 : s'.docs = s.docs) (h2 : s'.nextRun = s.nextRun) (h3 : subsOf s' = subsOf s)
-    (h4 : bvs s' = bvs s) (h5 : s'.pc = s.pc) : dv s' = dv s := by
-  simp only [dv, h1, h2, h3, h4, h5]
+    (h4 : bvs s' = bvs s) (h6 : keysOf s' = keysOf s) (h5 : s'.pc = s.pc) : dv s' = dv s := by
+  simp only [dv, h1, h2, h3, h4, h5, h6]
 
 theorem Inv.congr {s s' : EState} (h : dv s' = dv s) (hi : Inv s) : Inv s' := by
   unfold Inv; rw [h]; exact hi
 
 /-- same data, whatever the program counter -/
 theorem Inv.of_data {s s' : EState} (h1 : s'.docs = s.docs) (h2 : s'.nextRun = s.nextRun) (h3 : subsOf s' = subsOf s)
-    (h4 : bvs s' = bvs s) (hi : Inv s) : Inv s' := by
+    (h4 : bvs s' = bvs s) (h6 : keysOf s' = keysOf s) (hi : Inv s) : Inv s' := by
   unfold Inv InvV dv at *
-  simp only [h1, h2, h3, h4]; exact hi
+  simp only [h1, h2, h3, h4, h6]; exact hi
 
 theorem pc_of_dv {s s' : EState} (h : dv s' = dv s) : s'.pc = s.pc := congrArg DV.pc h
 
@@ -72,7 +77,7 @@ theorem subsOf_setDev_same (s : EState) (n : String) (d : DevState) (h : d.subs 
 
 @[simp] theorem dv_nextMode (s : EState) (n op : String) : dv (nextMode s n op).2 = dv s := by
   unfold nextMode
-  exact dv_ext rfl rfl (subsOf_setDev_same _ _ _ rfl) rfl rfl
+  exact dv_ext rfl rfl (subsOf_setDev_same _ _ _ rfl) rfl rfl rfl
 
 @[simp] theorem dv_newStatus (s : EState) (d o m : String) (g : Option String) : dv (newStatus s d o m g).2 = dv s := rfl
 
@@ -114,11 +119,15 @@ theorem forBundlers_pure (g : Bundler → Bundler) (s : EState) :
 theorem dv_forBundlers_pure (g : Bundler → Bundler) (hg : ∀ b, bview (g b) = bview b) (s : EState) :
     dv (forBundlers s (fun s b => (s, g b))) = dv s := by
   rw [forBundlers_pure]
-  refine dv_ext rfl rfl rfl ?_ rfl
-  simp only [bvs, List.map_map]
-  apply List.map_congr_left
-  intro kb _
-  exact hg kb.2
+  refine dv_ext rfl rfl rfl ?_ ?_ rfl
+  · simp only [bvs, List.map_map]
+    apply List.map_congr_left
+    intro kb _
+    exact hg kb.2
+  · simp only [keysOf, List.map_map]
+    apply List.map_congr_left
+    intro kb _
+    rfl
 
 @[simp] theorem bview_resetCheckpoint (b : Bundler) : bview b.resetCheckpoint = bview b := rfl
 @[simp] theorem bview_rewind (b : Bundler) : bview b.rewind = bview b := rfl
@@ -194,16 +203,20 @@ macro "frame_dv" : tactic =>
 theorem inv_leaveLoop (s : EState) (e : Exc) (h : Inv s) : Inv (leaveLoop s e) := by
   unfold leaveLoop
   simp only []
-  split <;> exact Inv.of_data rfl rfl rfl rfl h
+  split <;> exact Inv.of_data rfl rfl rfl rfl rfl h
 
 /-- the bundler registered under the key of `m` is replaced by one with the same view -/
 theorem dv_putBundler {s : EState} {m : Msg} {b : Bundler} (h : getBundler s m = some b) (b' : Bundler)
     (hv : bview b' = bview b) : dv (putBundler s m b') = dv s := by
   obtain ⟨pre, post, e1, e2, _⟩ := assocGet_split h
-  refine dv_ext rfl rfl rfl ?_ rfl
-  unfold bvs putBundler
-  simp only [e2 b']
-  rw [e1]
-  simp [hv]
+  refine dv_ext rfl rfl rfl ?_ ?_ rfl
+  · unfold bvs putBundler
+    simp only [e2 b']
+    rw [e1]
+    simp [hv]
+  · unfold keysOf putBundler
+    simp only [e2 b']
+    rw [e1]
+    simp
 
 end BlueskyVerif.Engine
